@@ -33,9 +33,20 @@ def run(tier):
     sec = tlc.run_tlc("MC_Stream", cfg=f"MC_Stream_sections_{tier}", workers=8, coverage=False, heap="8g", timeout=3400)
     tlc.require_ok(sec, "MC_Stream sections")
     sections = [v for t, v in sec.printed if t == "SECTION"]
+    # sections of a combined diff, with conflict regions (with and without an ancestor part)
+    secc = tlc.run_tlc("MC_Stream", cfg="MC_Stream_sections_cc", workers=4, coverage=False, heap="4g", timeout=1800)
+    tlc.require_ok(secc, "MC_Stream sections (combined)")
+    cc_sections = [v for t, v in secc.printed if t == "SECTION"]
+    if len(cc_sections) < 100:
+        raise core.ToolError(f"only {len(cc_sections)} combined-diff sections from MC_Stream_sections_cc")
+    sections += cc_sections
     log(f"[{PID}] design level: {mc.distinct}+{sec.distinct} distinct states; {len(sections)} complete sections")
 
     def cls(s):
+        if s[0]["kd"] == "cc":
+            # (a conflict region with an ancestor part, without one, or none at all)
+            cs = {l["c"] for l in s}
+            return ("cc", s[-1]["c"] + ("+anc" if "m_anc" in cs else "+conflict" if "m_ours" in cs else ""))
         return (s[0]["kd"], s[-1]["c"])
     by = {}
     for s in sections:
